@@ -10,6 +10,7 @@ import (
 	"fmt"
 	"os"
 	"path/filepath"
+	"regexp"
 	"sort"
 	"strings"
 )
@@ -110,7 +111,7 @@ func (cfg histCfg) relevant(h *HistRunner) []Violation {
 			// a server panic is a violation of whichever property is being checked (the view can no longer
 			// be served at all) and of C11/C19
 			for p := range cfg.props {
-				out = append(out, Violation{Prop: p, Desc: v.Desc})
+				out = append(out, Violation{Prop: p, Desc: v.Desc, Step: v.Step})
 				break
 			}
 		}
@@ -118,41 +119,317 @@ func (cfg histCfg) relevant(h *HistRunner) []Violation {
 	return out
 }
 
-// shrink: greedy chunk removal while a violation of the same property persists.
-func shrinkHistory(cfg histCfg, steps []string, prop string, budget int) []string {
-	fails := func(st []string) bool {
-		h, err := runHistory(nil, cfg, st)
-		if h == nil {
-			return false
+// ---- violation signatures ---------------------------------------------------------------
+//
+// Two violations of one property can have unrelated root causes; a shrinker that only asks "does
+// some violation of Cxx persist" drifts from one cause to another and ends with a mixture. The
+// signature abstracts a violation to its kind (and, for flag differences, which flag differs in
+// which direction); the shrinker only accepts candidates that still show the same signature.
+
+var (
+	reSigNum   = regexp.MustCompile(`[0-9]+`)
+	reSigViews = regexp.MustCompile(`view is \[(.*)\] but a fresh session sees \[(.*)\]`)
+	reSigFlags = regexp.MustCompile(`answered with flags (\S+) but the client was last told (\S+)`)
+)
+
+func flagSetDiff(a, b string) (onlyA, onlyB []string) {
+	set := func(x string) map[string]bool {
+		m := map[string]bool{}
+		for _, f := range strings.Split(x, ",") {
+			if f != "" && f != "-" && f != `\recent` {
+				m[f] = true
+			}
 		}
-		if err != nil {
-			return false
+		return m
+	}
+	ma, mb := set(a), set(b)
+	for f := range ma {
+		if !mb[f] {
+			onlyA = append(onlyA, f)
 		}
+	}
+	for f := range mb {
+		if !ma[f] {
+			onlyB = append(onlyB, f)
+		}
+	}
+	sort.Strings(onlyA)
+	sort.Strings(onlyB)
+	return
+}
+
+// violSig: property + kind of disagreement.
+func violSig(v Violation) string {
+	d := v.Desc
+	if i := strings.Index(d, ": "); i >= 0 && i < 12 && strings.HasPrefix(d, "S") {
+		d = d[i+2:] // drop the "S<i>: " prefix
+	}
+	switch v.Prop {
+	case "C02":
+		if m := reSigViews.FindStringSubmatch(d); m != nil {
+			a, b := strings.Fields(m[1]), strings.Fields(m[2])
+			if len(a) != len(b) {
+				if len(a) > len(b) {
+					return "C02:count:session-has-more"
+				}
+				return "C02:count:session-has-fewer"
+			}
+			var parts []string
+			for k := range a {
+				pa, pb := strings.SplitN(a[k], ":", 2), strings.SplitN(b[k], ":", 2)
+				if pa[0] != pb[0] {
+					return "C02:uids-differ"
+				}
+				oa, ob := flagSetDiff(pa[1], pb[1])
+				for _, f := range oa {
+					parts = append(parts, "session-only"+f)
+				}
+				for _, f := range ob {
+					parts = append(parts, "fresh-only"+f)
+				}
+			}
+			sort.Strings(parts)
+			uniq := parts[:0]
+			for k, x := range parts {
+				if k == 0 || x != parts[k-1] {
+					uniq = append(uniq, x)
+				}
+			}
+			return "C02:flags:" + strings.Join(uniq, "+")
+		}
+	case "C01":
+		if m := reSigFlags.FindStringSubmatch(d); m != nil {
+			oa, ob := flagSetDiff(m[1], m[2])
+			return "C01:flags:answered-only" + strings.Join(oa, "") + ":told-only" + strings.Join(ob, "")
+		}
+	case "PANIC":
+		if i := strings.Index(d, "\": "); i >= 0 {
+			d = d[i+3:]
+		}
+	}
+	d = reSigNum.ReplaceAllString(d, "N")
+	if i := strings.Index(d, "(during"); i >= 0 {
+		d = strings.TrimSpace(d[:i])
+	}
+	if len(d) > 90 {
+		d = d[:90]
+	}
+	return v.Prop + ":" + d
+}
+
+// primaryViolations drops follow-on reports: once the client's numbering is off (a structural C01
+// violation), every later flag comparison of that session compares different messages.
+func primaryViolations(vs []Violation) []Violation {
+	structural := map[string]int{} // session prefix -> first step with a structural C01 violation
+	for _, v := range vs {
+		if v.Prop == "C01" && !strings.HasPrefix(violSig(v), "C01:flags:") {
+			sess := strings.SplitN(v.Desc, ":", 2)[0]
+			if st, ok := structural[sess]; !ok || v.Step < st {
+				structural[sess] = v.Step
+			}
+		}
+	}
+	var out []Violation
+	for _, v := range vs {
+		if v.Prop == "C01" && strings.HasPrefix(violSig(v), "C01:flags:") {
+			sess := strings.SplitN(v.Desc, ":", 2)[0]
+			if st, ok := structural[sess]; ok && v.Step >= st {
+				continue
+			}
+		}
+		out = append(out, v)
+	}
+	return out
+}
+
+// ---- shrinker -------------------------------------------------------------------------------
+//
+// Strategy (each candidate = one fresh server + replay, ~0.1 s):
+//  0. determinise: put an X BARRIER after every step; if the violation persists the rest works on
+//     a history whose outcome does not depend on goroutine scheduling (otherwise every candidate is
+//     tried up to `tries` times);
+//  1. truncate after the step at which the violation was detected (C01/C05/PANIC);
+//  2. structural removals: all steps of one session, all steps mentioning one marker, all barriers;
+//  3. ddmin-style chunk removal down to single steps, repeated to a fixpoint (1-minimal);
+//  4. step simplification: sequence sets to a single number, two-flag stores to one flag.
+type shrinker struct {
+	cfg    histCfg
+	sig    string
+	budget int
+	tries  int
+	runs   int
+}
+
+func (sh *shrinker) failsOnce(st []string) (bool, *HistRunner) {
+	if sh.budget <= 0 {
+		return false, nil
+	}
+	sh.budget--
+	sh.runs++
+	h, err := runHistory(nil, sh.cfg, st)
+	if h == nil || err != nil {
+		return false, h
+	}
+	for _, v := range sh.cfg.relevant(h) {
+		if violSig(v) == sh.sig {
+			return true, h
+		}
+	}
+	return false, h
+}
+
+func (sh *shrinker) fails(st []string) bool {
+	for k := 0; k < sh.tries; k++ {
+		if ok, _ := sh.failsOnce(st); ok {
+			return true
+		}
+	}
+	return false
+}
+
+func withoutIdx(st []string, drop func(i int, s string) bool) []string {
+	out := make([]string, 0, len(st))
+	for i, s := range st {
+		if !drop(i, s) {
+			out = append(out, s)
+		}
+	}
+	return out
+}
+
+var (
+	reMarker   = regexp.MustCompile(`\bm[0-9]+\b`)
+	reSeqRange = regexp.MustCompile(`^(\d+)[:,](\d+|\*)$`)
+)
+
+func simplifyStep(s string) []string {
+	f := strings.Fields(s)
+	var out []string
+	if len(f) >= 5 && f[1] == "CMD" {
+		// S<i> CMD <kind> <verb> <set> ...
+		if m := reSeqRange.FindStringSubmatch(f[4]); m != nil {
+			for _, one := range []string{m[1], m[2]} {
+				if one == "*" {
+					continue
+				}
+				g := append([]string{}, f...)
+				g[4] = one
+				out = append(out, strings.Join(g, " "))
+			}
+		}
+		if f[2] == "STORE" && len(f) == 8 { // two flags: (\A \B)
+			for _, one := range []string{strings.Trim(f[6], "()"), strings.Trim(f[7], "()")} {
+				g := append([]string{}, f[:6]...)
+				g = append(g, "("+one+")")
+				out = append(out, strings.Join(g, " "))
+			}
+		}
+	}
+	return out
+}
+
+func shrinkHistory(cfg histCfg, steps []string, sig string, budget int) (best []string, runs int, deterministic bool) {
+	sh := &shrinker{cfg: cfg, sig: sig, budget: budget, tries: 3}
+	cur := append([]string{}, steps...)
+
+	// 0. determinise
+	var sat []string
+	for _, s := range cur {
+		sat = append(sat, s)
+		if !strings.HasPrefix(s, "X ") {
+			sat = append(sat, "X BARRIER")
+		}
+	}
+	if ok, _ := sh.failsOnce(sat); ok {
+		if ok2, _ := sh.failsOnce(sat); ok2 {
+			cur, deterministic = sat, true
+			sh.tries = 1
+		}
+	}
+
+	// 1. truncate at the detecting step
+	if ok, h := sh.failsOnce(cur); ok && h != nil {
 		for _, v := range cfg.relevant(h) {
-			if v.Prop == prop {
-				return true
+			if violSig(v) == sig && v.Step >= 0 && v.Step+1 < len(cur) {
+				cand := append([]string{}, cur[:v.Step+1]...)
+				if sh.fails(cand) {
+					cur = cand
+				}
+				break
 			}
 		}
-		return false
 	}
-	cur := steps
-	for chunk := len(cur) / 2; chunk >= 1 && budget > 0; {
-		removed := false
-		for i := 0; i+chunk <= len(cur) && budget > 0; {
-			cand := append(append([]string{}, cur[:i]...), cur[i+chunk:]...)
-			budget--
-			if fails(cand) {
+
+	for round := 0; round < 4 && sh.budget > 0; round++ {
+		before := len(cur)
+		// 2. structural removals
+		for i := 0; i < 4; i++ {
+			pfx := fmt.Sprintf("S%d ", i)
+			cand := withoutIdx(cur, func(_ int, s string) bool { return strings.HasPrefix(s, pfx) })
+			if len(cand) < len(cur) && sh.fails(cand) {
 				cur = cand
-				removed = true
-			} else {
-				i += chunk
 			}
 		}
-		if !removed || chunk > 1 {
-			chunk /= 2
+		seenM := map[string]bool{}
+		for _, s := range cur {
+			for _, m := range reMarker.FindAllString(s, -1) {
+				seenM[m] = true
+			}
+		}
+		for _, m := range sortedKeys2(seenM) {
+			re := regexp.MustCompile(`\b` + m + `\b`)
+			cand := withoutIdx(cur, func(_ int, s string) bool { return re.MatchString(s) })
+			if len(cand) < len(cur) && sh.fails(cand) {
+				cur = cand
+			}
+		}
+		// 3. ddmin chunks
+		for chunk := len(cur) / 2; chunk >= 1 && sh.budget > 0; {
+			removed := false
+			for i := 0; i+chunk <= len(cur) && sh.budget > 0; {
+				cand := append(append([]string{}, cur[:i]...), cur[i+chunk:]...)
+				if sh.fails(cand) {
+					cur = cand
+					removed = true
+				} else {
+					i += chunk
+				}
+			}
+			if chunk == 1 && !removed {
+				break
+			}
+			if !removed || chunk > 1 {
+				chunk /= 2
+			}
+			if chunk == 0 && removed {
+				chunk = 1
+			}
+		}
+		// 4. simplify steps
+		for i := 0; i < len(cur) && sh.budget > 0; i++ {
+			for _, alt := range simplifyStep(cur[i]) {
+				cand := append([]string{}, cur...)
+				cand[i] = alt
+				if sh.fails(cand) {
+					cur = cand
+					break
+				}
+			}
+		}
+		if len(cur) == before {
+			break
 		}
 	}
-	return cur
+	return cur, sh.runs, deterministic
+}
+
+func sortedKeys2(m map[string]bool) []string {
+	var k []string
+	for x := range m {
+		k = append(k, x)
+	}
+	sort.Strings(k)
+	return k
 }
 
 func runHistOracle(args []string) int {
@@ -164,7 +441,10 @@ func runHistOracle(args []string) int {
 	n := fs.Int("n", 20, "histories")
 	steps := fs.Int("steps", 40, "steps per history")
 	props := fs.String("props", "C01,C02,C05", "")
-	profile := fs.String("profile", "", "generator profile (noclose: no CLOSE commands)")
+	profile := fs.String("profile", "", "generator profile: noclose (no CLOSE), hold (X HOLD/RELEASE), samebox (COPY/MOVE onto the selected mailbox), race (free-running sessions, see hist.go)")
+	shrinkBudget := fs.Int("shrink", 250, "replays the shrinker may spend per reported violation")
+	perSig := fs.Int("persig", 2, "reports per violation signature")
+	minimise := fs.Bool("minimise", false, "with -replay: shrink the replayed history once per violation signature")
 	_ = fs.Parse(args)
 	cfg := histCfg{props: map[string]bool{}, steps: *steps, profile: *profile}
 	for _, p := range strings.Split(*props, ",") {
@@ -179,7 +459,7 @@ func runHistOracle(args []string) int {
 		path := filepath.Join(*replayDir, name)
 		_ = os.MkdirAll(*replayDir, 0o755)
 		_ = os.WriteFile(path, []byte(text), 0o644)
-		res.Violations = append(res.Violations, OracleViol{Desc: v.Prop + ": " + v.Desc, Replay: path})
+		res.Violations = append(res.Violations, OracleViol{Desc: v.Prop + ": " + v.Desc + " {" + violSig(v) + "}", Replay: path})
 	}
 	if *replay != "" {
 		b, err := os.ReadFile(*replay)
@@ -200,8 +480,19 @@ func runHistOracle(args []string) int {
 			fmt.Fprintln(os.Stderr, "replay error:", err)
 		}
 		if h != nil {
-			for _, v := range cfg.relevant(h) {
-				report(h, st, v, "replayed")
+			seen := map[string]bool{}
+			for _, v := range primaryViolations(cfg.relevant(h)) {
+				if !*minimise {
+					report(h, st, v, "replayed; signature "+violSig(v))
+					continue
+				}
+				sig := violSig(v)
+				if seen[sig] {
+					continue
+				}
+				seen[sig] = true
+				small, runs, det := shrinkHistory(cfg, st, sig, *shrinkBudget)
+				report(h, small, v, fmt.Sprintf("signature %s; minimised from %d to %d steps in %d replays (schedule-independent: %v)", sig, len(st), len(small), runs, det))
 			}
 		}
 		res.DistinctNontrivial = 2
@@ -297,24 +588,25 @@ func runHistOracle(args []string) int {
 			continue
 		}
 		seen := map[string]bool{}
-		for _, v := range cfg.relevant(h) {
-			if seen[v.Prop] || reported[v.Prop] >= 3 {
+		for _, v := range primaryViolations(cfg.relevant(h)) {
+			sig := violSig(v)
+			if seen[sig] || reported[sig] >= *perSig {
 				continue
 			}
-			seen[v.Prop] = true
-			reported[v.Prop]++
-			small := shrinkHistory(cfg, h.steps, v.Prop, 40)
+			seen[sig] = true
+			reported[sig]++
+			small, runs, det := shrinkHistory(cfg, h.steps, sig, *shrinkBudget)
 			hs, _ := runHistory(nil, cfg, small)
 			vv := v
 			if hs != nil {
-				for _, x := range hs.violations {
-					if x.Prop == v.Prop {
+				for _, x := range cfg.relevant(hs) {
+					if violSig(x) == sig {
 						vv = x
 						break
 					}
 				}
 			}
-			report(h, small, vv, fmt.Sprintf("minimised from %d steps (seed %d, history %d)", len(h.steps), *seed, k))
+			report(h, small, vv, fmt.Sprintf("signature %s; minimised from %d to %d steps in %d replays (seed %d, history %d, schedule-independent: %v)", sig, len(h.steps), len(small), runs, *seed, k, det))
 		}
 	}
 	if *out != "" {
